@@ -6,16 +6,19 @@
 # and the equality lemmas there, report which lemma fails.
 set -u
 export GOFLAGS=-mod=mod GOPROXY=off GOSUMDB=off GOTOOLCHAIN=local
-BIN=/verif/_build/bin/limbgen
+# VERIF=/verif REPO=/repo by default (override to run on a scratch clone)
+V=${VERIF:-/verif}
+REPO=${REPO:-/repo}
+BIN=$V/_build/bin/limbgen
 R=/tmp/lgrepo
 S=/tmp/lgself
-C=/verif/coq
+C=$V/coq
 
 setup_tree() {
   rm -rf $S; mkdir -p $S/coq/Gen $S/coq/Proofs
   ln -s $C/Lib $S/coq/Lib; ln -s $C/Model $S/coq/Model
   for f in $C/Gen/*; do
-    case $(basename $f) in FfRoutines.*|FfgRoutines.*) ;; *) ln -s $f $S/coq/Gen/ ;; esac
+    case $(basename $f) in FfRoutines.*|FfgRoutines.*|FfGlue.*|FfgGlue.*) ;; *) ln -s $f $S/coq/Gen/ ;; esac
   done
   cp $C/Proofs/FfRoutinesEq.v $C/Proofs/FfgRoutinesEq.v $S/coq/Proofs/
 }
@@ -43,7 +46,9 @@ run() { # label, coq file stem (FfRoutines / FfgRoutines)
   local label="$1" stem="$2"
   echo "== $label"
   $BIN $R $S > $S/gen.out 2> $S/gen.err; local rc=$?
-  if [ $rc -ne 0 ]; then
+  if [ $rc -eq 3 ]; then
+    echo "   limbgen: EXIT 3 (glue functions not translated, see selftest_glue.sh) -- $(head -1 $S/gen.err | cut -c1-200)"
+  elif [ $rc -ne 0 ]; then
     echo "   limbgen: EXIT $rc -- $(head -1 $S/gen.err)"; return
   fi
   if diff -q $C/Gen/$stem.v $S/coq/Gen/$stem.v >/dev/null; then
@@ -66,7 +71,7 @@ run() { # label, coq file stem (FfRoutines / FfgRoutines)
     fi )
 }
 
-fresh() { rm -rf $R; cp -r /repo $R; setup_tree; }
+fresh() { rm -rf $R; cp -r $REPO $R; setup_tree; }
 
 fresh
 run "baseline: unmodified copy of /repo (ff)" FfRoutines
